@@ -123,6 +123,11 @@ type sepResp struct {
 }
 
 func (sc *scenario) handler(w *responsewriter.ResponseWriter[*udpclient.Conn], r *pool.Message) {
+	if p, err := r.Path(); err == nil && p == "/other" {
+		// traffic of other peers (level udpsrv): answered, not part of the observed history
+		_ = w.SetResponse(codes.Valid, message.TextPlain, nil)
+		return
+	}
 	sc.mu.Lock()
 	sc.counter++
 	n := sc.counter
